@@ -69,6 +69,36 @@ Definition is_frozen (t : bwlist) (denom default : string) (en_black en_white : 
   else if (en_white && (find_index (bw_white t) denom <? 0))%bool then true
   else false.
 
+(* ---------------------------------------------------------------- governance of the lists *)
+(* x/tokens/keeper/utils.go addTokens / removeTokens, x/tokens/keeper/freeze.go, and the
+   TokensWhiteBlackChange proposal handler (x/tokens/proposal_handler.go Apply) *)
+Fixpoint add_tokens (origin addings : list string) : list string :=
+  match addings with
+  | [] => origin
+  | a :: r => if 0 <=? find_index origin a then add_tokens origin r else add_tokens (origin ++ [a]) r
+  end.
+(* "fast remove": the last element takes the place of the removed one *)
+Fixpoint replace_at (l : list string) (i : nat) (x : string) : list string :=
+  match l, i with
+  | [], _ => []
+  | _ :: r, O => x :: r
+  | y :: r, S k => y :: replace_at r k x
+  end.
+Definition remove_one (origin : list string) (x : string) : list string :=
+  let i := find_index origin x in
+  if i <? 0 then origin
+  else removelast (replace_at origin (Z.to_nat i) (last origin ""%string)).
+Definition remove_tokens (origin removings : list string) : list string := fold_left remove_one removings origin.
+
+Record wbprop : Type := mkProp { p_black : bool; p_add : bool; p_tokens : list string }.
+Definition apply_prop (t : bwlist) (p : wbprop) : bwlist :=
+  match p_black p, p_add p with
+  | true, true => mkBW (add_tokens (bw_black t) (p_tokens p)) (bw_white t)
+  | true, false => mkBW (remove_tokens (bw_black t) (p_tokens p)) (bw_white t)
+  | false, true => mkBW (bw_black t) (add_tokens (bw_white t) (p_tokens p))
+  | false, false => mkBW (bw_black t) (remove_tokens (bw_white t) (p_tokens p))
+  end.
+
 (* ---------------------------------------------------------------- filter configuration *)
 Record filt : Type := mkFilt {
   f_native : string;            (* DefaultDenom *)
@@ -80,6 +110,8 @@ Record filt : Type := mkFilt {
   f_poor_msgs : list string;    (* GetPoorNetworkMessages *)
   f_max_send : Z                (* PoorNetworkMaxBankSend (uint64) *)
 }.
+Definition with_bw (f : filt) (t : bwlist) : filt :=
+  mkFilt (f_native f) t (f_en_black f) (f_en_white f) (f_nvals f) (f_minvals f) (f_poor_msgs f) (f_max_send f).
 Definition frozen (f : filt) (d : string) : bool :=
   is_frozen (f_bw f) d (f_native f) (f_en_black f) (f_en_white f).
 
